@@ -96,3 +96,9 @@ add("C16",
     "suggestions/decisions equal, no configuration repeated",
     "symbolic execution of the real scheduler/searcher code (CrossHair engine + z3), twin continuation; pre-snapshot metrics pinned to one model value per path without branching",
     "DESIGN.md 4 C16")
+add("C07",
+    "bounded model checking of domains and encodings in exact real arithmetic: membership of decoded values for every cube point (incl. the admitted slack), encode in [0,1], round trips (continuous linear, integer, finite, ordinal-nn), "
+    "samplers with the RNG output as a solver variable (randint, lograndint, qrandint, uniform, loguniform, quniform), dict round trip; domain parameters symbolic small ints or concrete tables. "
+    "Log-scaled integer/finite value identities and IEEE round-off effects are outside (stated)",
+    "symbolic execution of the real domain / range code through a numpy shim for scalar primitives (CrossHair engine + z3); log/exp as uninterpreted monotone inverse pairs with instantiated axioms",
+    "DESIGN.md 4 C07")
